@@ -389,8 +389,13 @@ fn shard(
     let chunk: u32 = 2000;
     let mut done = 0u64;
     let mut chunk_no = 0u64;
-    while done < cases && !stop.load(Ordering::SeqCst) {
-        let n = chunk.min((cases - done) as u32);
+    // then small byte-level mutations of the saved inputs (a neighbourhood search around the
+    // shapes that exposed a seeded change before), generated by proptest like everything else
+    let mut mut_left: u64 = if corpus.is_empty() { 0 } else { ((corpus.len() as u64 * 64).min(48_000) + shards as u64 - 1) / shards as u64 };
+    let corpus_arc: Arc<Vec<Vec<u8>>> = Arc::new(corpus.to_vec());
+    while (done < cases || mut_left > 0) && !stop.load(Ordering::SeqCst) {
+        let mutate = mut_left > 0;
+        let n = if mutate { chunk.min(mut_left as u32) } else { chunk.min((cases - done) as u32) };
         let mut sb = seed_bytes;
         for (i, b) in chunk_no.to_le_bytes().iter().enumerate() {
             sb[8 + i] ^= *b;
@@ -407,7 +412,7 @@ fn shard(
             ..Config::default()
         };
         let mut runner = TestRunner::new(cfg);
-        let strat = proptest::collection::vec(proptest::num::u8::ANY, 0..max_len);
+        let strat = if mutate { mutation_strategy(corpus_arc.clone()) } else { proptest::collection::vec(proptest::num::u8::ANY, 0..max_len).boxed() };
         let failed = std::cell::Cell::new(false);
         let st = std::cell::RefCell::new(&mut stats);
         let res = runner.run(&strat, |bytes| {
@@ -422,6 +427,9 @@ fn shard(
             if !failed.get() {
                 let mut s = st.borrow_mut();
                 s.evaluations += 1;
+                if mutate {
+                    *s.labels.entry("saved_corpus_mutation").or_default() += 1;
+                }
                 if let Some(why) = ev.inconclusive {
                     *s.inconclusive.entry(why).or_default() += 1;
                 }
@@ -449,7 +457,11 @@ fn shard(
                 Ok(())
             }
         });
-        done += n as u64;
+        if mutate {
+            mut_left -= n as u64;
+        } else {
+            done += n as u64;
+        }
         match res {
             Ok(()) => {}
             Err(TestError::Fail(_, bytes)) => {
@@ -473,6 +485,38 @@ fn shard(
         }
     }
     (stats, failure)
+}
+
+/// A saved input with one to four small edits (set / insert / delete / nudge a byte) and a
+/// short random tail. Positions are mapped monotonically so that proptest can shrink them.
+fn mutation_strategy(corpus: Arc<Vec<Vec<u8>>>) -> proptest::strategy::BoxedStrategy<Vec<u8>> {
+    let n = corpus.len().max(1);
+    (
+        0..n,
+        proptest::collection::vec((0u8..4, proptest::num::u16::ANY, proptest::num::u8::ANY), 1..5),
+        proptest::collection::vec(proptest::num::u8::ANY, 0..6),
+    )
+        .prop_map(move |(i, edits, tail)| {
+            let mut b = corpus.get(i).cloned().unwrap_or_default();
+            for (op, pos, val) in edits {
+                let len = b.len();
+                match op {
+                    0 if len > 0 => b[(pos as usize * len) >> 16] = val,
+                    1 => b.insert((pos as usize * (len + 1)) >> 16, val),
+                    2 if len > 0 => {
+                        b.remove((pos as usize * len) >> 16);
+                    }
+                    3 if len > 0 => {
+                        let p = (pos as usize * len) >> 16;
+                        b[p] = b[p].wrapping_add(val % 5).wrapping_sub(2);
+                    }
+                    _ => {}
+                }
+            }
+            b.extend(tail);
+            b
+        })
+        .boxed()
 }
 
 /// After proptest's own shrinking: greedy byte-level passes (truncate, zero,
